@@ -1,3 +1,4 @@
+mod capi;
 mod driver;
 mod gen;
 mod h5;
@@ -64,6 +65,7 @@ fn main() {
                 "c01" => props::stream::job_c01(outdir, tier, seed),
                 "c12" => props::stream::job_c12(outdir, tier, seed),
                 "c15" => props::stream::job_c15(outdir, tier, seed),
+                "c12r" => props::stream::job_c12r(outdir, tier, seed),
                 "c02" => props::rel::job_c02(outdir, tier, seed),
                 "c06" => props::rel::job_c06(outdir, tier, seed),
                 "c04" => props::sel::job_c04(outdir, tier, seed),
